@@ -153,6 +153,16 @@ def generate(bases, seed, tier):
         for xl, fl in ((1 << 28, 1 << 40), (1 << 33, 1 << 62), ((1 << 64) - 1, (1 << 64) - 1), (size * 4, size * 8)):
             out.append({"base": bi, "name": f"b{bi}:hdr.xmllen={xl}&hdr.length={fl}",
                         "edits": [{"k": "log", "off": 32, "bytes": le(xl, 8)}, {"k": "log", "off": 16, "bytes": le(fl, 8)}], "reseal": True})
+        # a blob enlarged consistently in its XML descriptor and in its section header (past the end of the file and beyond)
+        for m in list(re.finditer(r'type="Blob" fileOffset="(\d+)" length="(\d+)"', text))[:4]:
+            lp = phys2log(int(m.group(1)))
+            frm = m.group(0)
+            nth = text[:m.start()].count(frm)
+            for nl in (int(m.group(2)) + 6000, size * 3, 1 << 24, 1 << 40):
+                for seclen in (16 + nl + (4 - nl % 4) % 4, nl):
+                    out.append({"base": bi, "name": f"b{bi}:blob@{m.group(1)}.length={nl}&seclen={seclen}",
+                                "edits": [{"k": "xml", "from": frm, "to": f'type="Blob" fileOffset="{m.group(1)}" length="{nl}"', "nth": nth},
+                                          {"k": "log", "off": lp + 8, "bytes": le(seclen, 8)}], "reseal": True})
         # pairs (pairwise sampling)
         npairs = 600 if tier == "thorough" else 60
         for _ in range(npairs):
